@@ -131,6 +131,7 @@ type IterV struct {
 	str   string
 	isStr bool
 	spos  int
+	calls int
 }
 
 func (e *Engine) rangeStart(x Value, xt types.Type, g *Term, pos token.Pos) Value {
@@ -173,6 +174,15 @@ func (e *Engine) rangeNext(itv Value, in *ssa.Next, g *Term) Value {
 		res := TupleV{[]Value{TS.True, BV(64, uint64(it.spos)), BV(32, uint64(r))}}
 		it.spos += sz
 		return res
+	}
+	it.calls++
+	if it.calls > it.n {
+		// every snapshot entry has been passed
+		var kz, vz Value = BV(8, 0), BV(8, 0)
+		if it.m != nil {
+			kz, vz = zero(it.m.typ.Key()), zero(it.m.typ.Elem())
+		}
+		return TupleV{[]Value{TS.False, kz, vz}}
 	}
 	tt := in.Type().(*types.Tuple)
 	var keyZ, valZ Value = BV(8, 0), BV(8, 0)
